@@ -450,8 +450,6 @@ class Job:
                 if not ok:
                     f = {'input': self.inp(), 'observed': 'no filled path covering the page before the module path (filled paths: %s)' % [(r['fill'], r['rect']) for r in filled],
                          'expected': 'the light colour %r fills the whole %sx%s page' % (light, self.m, self.m)}
-                    if g('draw_transparent'):
-                        f['kf'] = 'kf_svg_transparent_no_background'
                     self.failures.append(f)
             elif filled:
                 self.fail('a filled path %r although no light colour was requested' % filled[0]['fill'], 'no background')
@@ -642,8 +640,11 @@ def make_jobs(ctx, subs):
     all_combos = [(s, b) for s in INT_SCALES + FRAC_SCALES for b in BORDERS]
     must = [(1, 0), (1, None), (2, 0), (2, None)]
     for subj in subs:
-        if ctx.thorough:
+        if ctx.thorough and subj.size <= 45:
             combos = all_combos
+        elif ctx.thorough:
+            rest = [c for c in all_combos if c not in must]
+            combos = must + rng.sample(rest, 6)
         else:
             rest = [c for c in all_combos if c not in must]
             combos = must + rng.sample(rest, 3 if subj.handmade else (5 if subj.size <= 25 else 3))
